@@ -139,8 +139,10 @@ func nhScenarioSMC(rec *nhRec, tid int, seed int64, smType string, store string,
 				if h.alive && h.nh != nil {
 					if err := h.nh.StopShard(shard); err == nil {
 						if rs != nil {
+							d := time.Duration(rng.Intn(12000)) * time.Microsecond
 							go func() {
 								defer func() { _ = recover() }()
+								time.Sleep(d)
 								_, _ = nh.ReadLocalNode(rs, nhQuery{Op: "r", K: "a"})
 							}()
 						}
